@@ -214,6 +214,58 @@ class GetImmoralities(Contract):
 register(GetImmoralities())
 
 
+def VS(E, F_, c_):
+    """VS(F, c) <=> exists a,b. F = {a,b} and a -> c <- b is an unshielded collider."""
+    a, b, x = fresh("a", Atom), fresh("b", Atom), fresh("x", Atom)
+    return z3.Exists([a, b], z3.And(z3.ForAll([x], F_[x] == z3.Or(x == a, x == b)), vstruct(E, a, b, c_)))
+
+
+def VSP(ex, E):
+    """named version of VS for one edge relation: VSP_E(F, c) <=> VS(E, F, c) (definitional axiom)"""
+    store = ex.__dict__.setdefault("_vsp", [])
+    for E0, P in store:
+        if E0.eq(E):
+            return P
+    P = z3.Function(f"VStruct!{len(store)}", SetA, Atom, B)
+    F, c = fresh("F", SetA), fresh("c", Atom)
+    ex.axioms.append(z3.ForAll([F, c], P(F, c) == VS(E, F, c), patterns=[P(F, c)]))
+    store.append((E, P))
+    return P
+
+
+
+class VStructures(Contract):
+    """nested helper of is_iequivalent: the set of (frozenset({a,b}), c) for unshielded colliders a -> c <- b."""
+    file = "pgmpy/base/DAG.py"
+    qual = "DAG.is_iequivalent.<locals>.v_structures"
+
+    def variants(self, ex):
+        yield "any", {"dag": new_graph("DAG", "g")}, {}
+
+    def pre(self, ex, st, args):
+        return wf_graph(args["dag"])
+
+    def snapshot(self, ex, st, args):
+        return graph_snapshot(args["dag"])
+
+    def make_result(self, ex, st, args):
+        from vf.pyvc.engine import tuple_sort
+        return Coll("set", tuple_sort([SetA, Atom]), fresh("vs", set_sort(tuple_sort([SetA, Atom]))))
+
+    def post(self, ex, st, args, old, result):
+        from vf.pyvc.engine import tuple_sort
+        T = tuple_sort([SetA, Atom])
+        if not isinstance(result, Coll):
+            return z3.BoolVal(False)
+        mem = result.mem if result.mem is not None else empty_set(T)
+        y = fresh("y", T)
+        P = VSP(ex, old["_E"])
+        return z3.And(z3.ForAll([y], mem[y] == P(T.accessor(0, 0)(y), T.accessor(0, 1)(y))), graph_unchanged(args["dag"], old))
+
+
+register(VStructures())
+
+
 class IsIEquivalent(Contract):
     """post taken from the statement: same skeleton and same v-structures (with their colliders)."""
     file = "pgmpy/base/DAG.py"
@@ -235,7 +287,28 @@ class IsIEquivalent(Contract):
         a, b, c = fresh("a", Atom), fresh("b", Atom), fresh("c", Atom)
         same_skel = z3.ForAll([a, b], z3.Or(E1[a, b], E1[b, a]) == z3.Or(E2[a, b], E2[b, a]))
         same_v = z3.ForAll([a, b, c], vstruct(E1, a, b, c) == vstruct(E2, a, b, c))
-        return result.z == z3.And(same_skel, same_v)
+        # The code compares *sets of (frozenset({a,b}), c)*.  VS_i(F, c) <=> exists a,b. F = {a,b} /\ a -> c <- b unshielded in G_i.
+        F = fresh("F", SetA)
+        x = fresh("x", Atom)
+        pair = lambda F_, a_, b_: z3.ForAll([x], F_[x] == z3.Or(x == a_, x == b_))
+        VS = lambda E, F_, c_: z3.Exists([a, b], z3.And(pair(F_, a, b), vstruct(E, a, b, c_)))
+        from vf.pyvc.engine import tuple_sort
+        T = tuple_sort([SetA, Atom])
+        y = fresh("y", T)
+        Fy, cy = T.accessor(0, 0)(y), T.accessor(0, 1)(y)
+        P1, P2 = VSP(ex, E1), VSP(ex, E2)
+        same_VS = z3.ForAll([y], P1(Fy, cy) == P2(Fy, cy))                      # named predicates (code obligation)
+        same_VS_def = z3.ForAll([y], VS(E1, Fy, cy) == VS(E2, Fy, cy))          # unfolded definition (lemmas)
+        # lemma (pure mathematics, no code involved): same_VS <=> same_v ; the (=>) direction needs the instance
+        # y := ({a0,b0}, c0), supplied by hand (an instance of the hypothesis, hence sound)
+        a0, b0, c0 = fresh("a0", Atom), fresh("b0", Atom), fresh("c0", Atom)
+        Fab = z3.Store(z3.Store(empty_set(Atom), a0, True), b0, True)
+        inst = VS(E1, Fab, c0) == VS(E2, Fab, c0)
+        lemma_fwd = z3.Implies(inst, vstruct(E1, a0, b0, c0) == vstruct(E2, a0, b0, c0))
+        lemma_bwd = z3.Implies(same_v, same_VS_def)
+        return {"code-compares-skeleton-and-VS": result.z == z3.And(same_skel, same_VS),
+                "lemma.VS-implies-v-structures": lemma_fwd,
+                "lemma.v-structures-imply-VS": lemma_bwd}
 
 
 register(IsIEquivalent())
